@@ -352,7 +352,11 @@ def same(a, b, rtol, path=""):
 
 
 def yaml_docs(text):
-    return [d for d in yaml.load_all(text, Loader=yaml.Loader) if d is not None] if text.strip() else []
+    """Documents in a file; None if it is not parsable YAML (e.g. a new document written over the tail of a longer old one)."""
+    try:
+        return [d for d in yaml.load_all(text, Loader=yaml.Loader) if d is not None] if text.strip() else []
+    except Exception:
+        return None
 
 
 def doc_numeric_equal(a, b, rtol=1e-12):
@@ -480,10 +484,7 @@ class IOMachine(Machine):
                 raise Violation(PROP, "own-class", kind + ":to_file", "%s.to_file raised %s: %s" % (type(obj).__name__, type(raised).__name__, str(raised)[:160]), step=step,
                                 extra={"tags": [type(obj).__name__]})
             text1 = fs.files.get(path, "")
-            try:
-                docs = yaml_docs(text1) if "\0" not in text1 else None
-            except yaml.YAMLError:
-                docs = None
+            docs = yaml_docs(text1) if "\0" not in text1 else None
             if fault and fault[0] == "truncate_raises":
                 # the writer deliberately ignores a failing truncate (needed for streams); no property covers it: report-only
                 res.probe("FAULT-PROBE_truncate_failed_file_not_replaced")
@@ -533,7 +534,7 @@ class IOMachine(Machine):
                 loaded.to_file(path)
                 text2 = fs.files.get(path, "")
                 d2 = yaml_docs(text2)
-                if len(d2) != 1 or not doc_numeric_equal(docs[0], d2[0]):
+                if d2 is None or len(d2) != 1 or not doc_numeric_equal(docs[0], d2[0]):
                     raise Violation(PROP, "idempotent", kind, "second save/load cycle changed the document beyond rounding", step=step,
                                     extra={"tags": [type(obj).__name__]})
                 res.probe("second_cycle_compared")
